@@ -9,19 +9,7 @@
 EXTENDS DirPack, Json, IOUtils, SequencesExt
 
 CONSTANTS Kinds
-Pfx == {"", "ro.", "imm."}
-Cap(p, k, l) == [pfx |-> p, kind |-> k, lvl |-> l, obj |-> "o"]
-
-RwOpts(k) == {NoCap} \cup
-  (IF k \in ImmKinds THEN {Cap(p, k, "r") : p \in Pfx}
-   ELSE IF k \in MutKinds THEN {Cap(p, k, "w") : p \in Pfx}
-   ELSE {Cap("", k, "w")} \cup {Cap(p, k, "r") : p \in {"ro.", "imm."}})     \* a prefixed unknown cap is alleged read-only
-RoOpts(k) == {NoCap} \cup {Cap(p, k, "r") : p \in Pfx} \cup
-  (IF k \in MutKinds THEN {Cap("", k, "w"), Cap("ro.", k, "w")}                \* a write-cap put in the ro slot
-   ELSE IF k = "FUT" THEN {Cap("", "SSK", "w"), Cap("", "DIR2", "w"), Cap("", "SSK", "r"), Cap("", "CHK", "r")}   \* unknown rw + known ro
-   ELSE {})
-
-Givens == UNION {{[rw |-> a, ro |-> b] : a \in RwOpts(k), b \in RoOpts(k)} : k \in Kinds}
+Givens == GivensOf(Kinds)
 DirKs == {"mut", "imm"}
 
 Expect(g, dk) ==
